@@ -28,6 +28,11 @@ RECORDS = {
     "CromerMannFormula": (["symbol", "a", "b", "c"], []),
 }
 
+# instance fields the harness's own mutation events add to a record (made visible so that a
+# record shared between tables shows up in the other table's digest); any other extra field in
+# an instance dictionary (lazily filled caches, back references) is not a served value
+HARNESS_FIELDS = ("newfield", "verif_field", "__verif__")
+
 XRAY_ENERGIES = (8.04, 17.44)      # keV
 XRAY_Q = (0.0, 1.0, 5.0)
 
@@ -52,8 +57,8 @@ def canon_xray(x, depth):
         except Exception as e:  # noqa: BLE001 - outcome of the read is the value
             out[name] = ["E", type(e).__name__]
     for k in sorted(vars(x)):
-        if k.startswith("_") or k == "element":
-            continue      # private fields are caches / back references, not served values
+        if k not in HARNESS_FIELDS:
+            continue      # anything else in the instance dictionary is the library's own business
         out["+" + k] = canon(vars(x)[k], depth + 1)
     return ["R", "Xray", out]
 
@@ -114,8 +119,8 @@ def canon(v, depth=0):
             out = {}
             keys = list(served)
             try:
-                extra = sorted(k for k in vars(v) if k not in served and k not in internal
-                               and not k.startswith("_"))
+                extra = sorted(k for k in vars(v) if k not in served and
+                               (k in HARNESS_FIELDS or name == "ActivationResult"))
             except TypeError:
                 extra = []
             for k in keys + extra:
